@@ -3,6 +3,7 @@ from .. import catalogue, shapes, sym
 from ..shapes import Bounds, default_of
 from ..spec import specjson as sj, specmsg as sm, specwire as sw
 
+WARMUP = True  # a concrete first use of the harness before each path (vf/explore.py: WarmEnv)
 PROPERTY = "C06"
 WAYS = ["ctor", "attr", "parse", "from_dict-class", "from_dict-instance"]
 
